@@ -1,7 +1,7 @@
 (* Data obligations shared by several properties, discharged on the values the translator produced
    from the current tree (re-checked whenever Gen/ changes). *)
 From Schwifty Require Import Lib.Base Lib.Regex Model.Clean Model.Data Model.Iban.
-From Schwifty Require Import Proofs.CleanFacts Proofs.IbanFacts.
+From Schwifty Require Import Spec.RegistrySpec Proofs.CleanFacts Proofs.IbanFacts Proofs.TotalFacts.
 From Schwifty Require Import Gen.Env Gen.IbanData Gen.IbanCfg.
 
 Lemma env_obl : env_wf the_env = true.
@@ -14,4 +14,14 @@ Lemma cfg_obl : cfg_ok the_iban_cfg = true.
 Proof. vm_cast_no_check (eq_refl true). Qed.
 
 Lemma table_obl : forallb (row_ok (ic_format_method the_iban_cfg)) the_table = true.
+Proof. vm_cast_no_check (eq_refl true). Qed.
+
+(* the national step of IBAN.validate is present and is the last one *)
+Lemma steps_nat_obl :
+  nat_last (ic_steps the_iban_cfg) = true
+  /\ existsb (fun st => match st with SNational => true | _ => false end) (ic_steps the_iban_cfg) = true.
+Proof. vm_cast_no_check (conj (eq_refl true) (eq_refl true)). Qed.
+
+(* component positions lie inside the BBAN and never overlap *)
+Lemma positions_obl : forallb positions_wf the_table = true.
 Proof. vm_cast_no_check (eq_refl true). Qed.
